@@ -713,7 +713,7 @@ impl Quil for Expression {
                 expression,
             }) => {
                 write!(f, "{operator}")?;
-                format_inner_expression(f, fall_back_to_debug, expression)
+                format_prefix_operand(f, fall_back_to_debug, expression)
             }
             Variable(identifier) => write!(f, "%{identifier}").map_err(Into::into),
         }
@@ -740,8 +740,43 @@ fn format_inner_expression(
             write!(f, ")")?;
             Ok(())
         }
+        // A complex number with both a real and an imaginary part is written as a sum, so it is
+        // not an atom to the parser and must be parenthesized.
+        Expression::Number(value) if value.re != 0f64 && value.im != 0f64 => {
+            write_parenthesized(f, fall_back_to_debug, expression)
+        }
         _ => expression.write(f, fall_back_to_debug),
     }
+}
+
+/// Utility function to write the operand of a prefix operator.  In addition to the cases handled by
+/// [`format_inner_expression`], another prefix expression or a number that is written with a
+/// leading sign must be parenthesized, since the parser does not accept consecutive prefix operators.
+fn format_prefix_operand(
+    f: &mut impl std::fmt::Write,
+    fall_back_to_debug: bool,
+    expression: &Expression,
+) -> crate::quil::ToQuilResult<()> {
+    match expression {
+        Expression::Prefix(_) => write_parenthesized(f, fall_back_to_debug, expression),
+        Expression::Number(value)
+            if value.re < 0f64 || (value.re == 0f64 && value.im < 0f64) =>
+        {
+            write_parenthesized(f, fall_back_to_debug, expression)
+        }
+        _ => format_inner_expression(f, fall_back_to_debug, expression),
+    }
+}
+
+fn write_parenthesized(
+    f: &mut impl std::fmt::Write,
+    fall_back_to_debug: bool,
+    expression: &Expression,
+) -> crate::quil::ToQuilResult<()> {
+    write!(f, "(")?;
+    expression.write(f, fall_back_to_debug)?;
+    write!(f, ")")?;
+    Ok(())
 }
 
 #[cfg(test)]
